@@ -72,15 +72,42 @@ example : validateItem (.float (some ⟨some (0, 1), some (1, 1)⟩)) (.str "0.2
 example : validateItem .ms (.str "1.001s") = .ok (.int 1001) := by decide
 example : validateItem .ms (.str "100msec") = .ok (.int 100) := by decide
 
+/-! ## item types: lists, sets, dicts -/
+
+/-- **lists are normalised and typed**: for every scalar validator except `pow2`, whatever the item was (a YAML list,
+a comma-separated string, a single scalar, None), a returned list has only elements of the declared type -/
+theorem list_typed (vd : V) (vvd : Option V) (brace : Bool) (item : Item) (out : Item)
+    (hp : ∀ (h : vd = .pow2), False) (h : validateConfigItem .list vd vvd brace item = .ok out) :
+    ∃ vs, out = .list vs ∧ ∀ v ∈ vs, HasType vd v = true :=
+  list_typed_aux vd vvd brace item out hp h
+
+/-- no element of a provided list is dropped or invented: a YAML list of `n` scalars comes back with `n` elements -/
+theorem list_length_kept (vd : V) (vvd : Option V) (brace : Bool) (ys : List Y) (out : Item)
+    (h : validateConfigItem .list vd vvd brace (.list ys) = .ok out) : ∃ vs, out = .list vs ∧ vs.length = ys.length :=
+  list_length_aux vd vvd brace ys out h
+
+/-- **dicts are typed**: keys by the first validator, values by the second; a non-dict is rejected; None is `{}` -/
+theorem dict_typed (kvd vvd : V) (brace : Bool) (item : Item) (out : Item)
+    (hk : ∀ (h : kvd = .pow2), False) (hv : ∀ (h : vvd = .pow2), False)
+    (h : validateConfigItem .dict kvd (some vvd) brace item = .ok out) :
+    ∃ kvs, out = .dict kvs ∧ ∀ p ∈ kvs, HasType kvd p.1 = true ∧ HasType vvd p.2 = true :=
+  dict_typed_aux kvd vvd brace item out hk hv h
+
+example : validateConfigItem .list (.int Option.none) Option.none true (.scalar (.str "1, 2,3"))
+    = .ok (.list [.int 1, .int 2, .int 3]) := by decide
+example : validateConfigItem .list .str Option.none true (.scalar (.str "a,,b")) = .reject := by decide
+example : validateConfigItem .dict .str (some (.int Option.none)) true (.dict [(.str "a", .str "5")])
+    = .ok (.dict [(.str "a", .int 5)]) := by decide
+
 /-! ## section validation -/
 
 /-- an unknown key is never accepted silently -/
-theorem unknown_key_rejected (n : Nat) (spec : List KeySpec) (src : List (String × Y)) :
+theorem unknown_key_rejected (n : Nat) (spec : List KeySpec) (src : List (String × Item)) :
     validateSection false (n + 1) spec src = none := by
   simp [validateSection]
 
 /-- a returned config has exactly the keys of the spec, in spec order (defaults filled in) -/
-theorem all_spec_keys_present (a : Bool) (n : Nat) (spec : List KeySpec) (src : List (String × Y)) (rs)
+theorem all_spec_keys_present (a : Bool) (n : Nat) (spec : List KeySpec) (src : List (String × Item)) (rs)
     (h : validateSection a n spec src = some rs) : rs.map (·.1) = spec.map (·.key) := by
   unfold validateSection at h
   split at h
@@ -93,12 +120,12 @@ theorem all_spec_keys_present (a : Bool) (n : Nat) (spec : List KeySpec) (src : 
     simp only [Function.comp]
     split <;> (try split) <;> rfl
 
-/-- a provided value is validated by its key's validator (never dropped, never replaced by the default);
-a missing required key is rejected -/
-theorem provided_key_validated (a : Bool) (n : Nat) (spec : List KeySpec) (src : List (String × Y)) (rs)
+/-- a provided value is validated by its key's item type and validator (never dropped, never replaced by the
+default); a missing required key is rejected -/
+theorem provided_key_validated (a : Bool) (n : Nat) (spec : List KeySpec) (src : List (String × Item)) (rs)
     (h : validateSection a n spec src = some rs) (ks : KeySpec) (hk : ks ∈ spec) :
-    (∀ v, src.lookup ks.key = some v → (ks.key, validateItem ks.vd v) ∈ rs) ∧
-    (src.lookup ks.key = none → ks.default = none → (ks.key, R.reject) ∈ rs) := by
+    (∀ v, src.lookup ks.key = some v → (ks.key, validateConfigItem ks.it ks.vd ks.vvd ks.brace v) ∈ rs) ∧
+    (src.lookup ks.key = none → ks.default = none → (ks.key, RI.reject) ∈ rs) := by
   unfold validateSection at h
   split at h
   · exact absurd h (by simp)
